@@ -35,9 +35,23 @@ def value(cfg):
     return "F_" + cfg["tag"] if cfg["fail"] else 3.0 * cfg["x"] + 0.5
 
 
+def returned(job):
+    """the run-function's return value in one of the forms the evaluator accepts; `job.output` must be
+    `value(cfg)` (Job) / `{"objective": value(cfg)}` (HPOJob) for all of them"""
+    cfg = dict(job.parameters)
+    _ = (job["x"], job["job_id"], len(job), list(job))  # RunningJob is a mapping over the configuration
+    v = value(cfg)
+    form = cfg.get("form", "plain")
+    if form == "wrapped":  # {"output": ..., "metadata": {...}}: metadata goes to job.metadata
+        return {"output": v, "metadata": {"note": cfg["tag"]}}
+    if form == "objdict":  # HPO only: {"objective": ..., "metadata": {...}}
+        return {"objective": v, "metadata": {"note": cfg["tag"]}}
+    return v
+
+
 async def run_serial(job):
     await asyncio.sleep(job.parameters["d"])
-    return value(job.parameters)
+    return returned(job)
 
 
 _REG = {}  # x -> dict(entered=Event, release=Event, finished=Event) of the current thread-backend script
@@ -46,10 +60,10 @@ _REG = {}  # x -> dict(entered=Event, release=Event, finished=Event) of the curr
 def run_thread(job):
     r = _REG_CURRENT.get(job.parameters["x"])
     if r is None:  # pragma: no cover  (a zombie of an earlier script)
-        return value(job.parameters)
+        return returned(job)
     r["entered"].set()
     r["release"].wait(60)
-    out = value(job.parameters)
+    out = returned(job)
     r["finished"].set()
     return out
 
@@ -59,7 +73,7 @@ _REG_CURRENT = _REG
 
 def run_sleep(job):
     time.sleep(job.parameters["d"])
-    return value(job.parameters)
+    return returned(job)
 
 
 # --------------------------------------------------------------------------- asyncio.wait spy
@@ -141,6 +155,8 @@ def _canon_job(job, hpo):
 class Real:
     """one evaluator of the real code + what the harness needs to observe it from outside"""
 
+    PRE = "p:x,p:tag,p:fail,objective,job_id,job_status\n99,old,False,1.0,99,DONE\n"  # somebody else's results.csv
+
     def __init__(self, case, spy, vt):
         from deephyper.evaluator import Evaluator, HPOJob
 
@@ -150,7 +166,11 @@ class Real:
         self.ev = Evaluator.create(fn, method=self.backend, method_kwargs={"num_workers": case["workers"]})
         if self.hpo:
             self.ev._job_class = HPOJob  # the way the searches (and the repo's tests) select the HPO format
+        self.ev.__enter__()  # the evaluator is a context manager (its __exit__ shuts the executor down)
         self.dir = tempfile.mkdtemp(prefix="c01_")
+        if case.get("preexisting_csv"):  # an older results.csv must be moved aside, not appended to
+            with open(os.path.join(self.dir, "results.csv"), "w") as f:
+                f.write(self.PRE)
         self.rows_seen = 0
         self.cfg_by_x = {}
         self.reg = {}
@@ -226,8 +246,11 @@ class Real:
                     for r in self.reg.values():
                         r["release"].set()
             elif kind == "dump":
-                ev.dump_jobs_done_to_csv(self.dir, flush=op["flush"])
-                out = {"kind": "rows", "jobs": self._new_rows()}
+                if op.get("alias"):  # the deprecated name of the same method
+                    ev.dump_evals(self.dir, flush=op["flush"])
+                else:
+                    ev.dump_jobs_done_to_csv(self.dir, flush=op["flush"])
+                out = {"kind": "rows"}
             else:
                 raise common.HarnessError(f"unknown op {op}")
         except common.HarnessError:
@@ -239,6 +262,8 @@ class Real:
             stop.set()
             if th is not None:
                 th.join(20)
+        if out == {"kind": "rows"}:
+            out["jobs"] = self._new_rows()  # a problem reading the file back is the harness's, not the code's
         after = self.statuses()
         waits = self.spy.take()
         started = [i for i, (b, a) in enumerate(zip(before, after)) if b == "READY" and a in ("RUNNING", "DONE")]
@@ -255,7 +280,10 @@ class Real:
         if not os.path.exists(path):
             return []
         with open(path, newline="") as f:
-            rows = list(csv.DictReader(f))
+            text = f.read()
+        if text == self.PRE:  # still the older file: this evaluator has not written anything yet
+            return []
+        rows = list(csv.DictReader(text.splitlines()))
         new, self.rows_seen = rows[self.rows_seen:], len(rows)
         out = []
         for r in new:
@@ -277,15 +305,11 @@ class Real:
             pass
         for r in self.reg.values():
             r["release"].set()
-        ex = getattr(self.ev, "executor", None)
-        if ex is not None:
-            try:
-                ex.shutdown(wait=True)
-            except Exception:
-                pass
-        st = getattr(self.ev, "_storage", None)
+        try:
+            self.ev.__exit__(None, None, None)
+        except Exception:
+            pass
         shutil.rmtree(self.dir, ignore_errors=True)
-        del st
 
 
 def drive(case, spy, vt):
@@ -428,7 +452,7 @@ def fingerprint(case, clause, i):
 # --------------------------------------------------------------------------- generator
 
 
-def _mk_cfg(rng, x, backend):
+def _mk_cfg(rng, x, backend, hpo=False):
     if backend == "serial":
         d = rng.choice([0, 0, 1, 1, 1, 2, 2, 3, 5]) * Q
     elif backend in ("process", "loky"):
@@ -436,6 +460,11 @@ def _mk_cfg(rng, x, backend):
     else:
         d = 0
     c = {"x": x, "tag": rng.choice("abcdef") + str(x), "fail": rng.random() < 0.2, "d": d}
+    r = rng.random()
+    if r < 0.15:
+        c["form"] = "wrapped"
+    elif r < 0.3 and hpo:
+        c["form"] = "objdict"
     if backend == "thread":
         c["prio"] = rng.randint(0, 9)
     return c
@@ -443,12 +472,13 @@ def _mk_cfg(rng, x, backend):
 
 def gen_case(rng, backend, maxlen, malformed=False):
     n_ops = rng.randint(2, maxlen)
+    hpo = rng.random() < 0.5
     ops, x, inflight = [], 0, 0
     for _ in range(n_ops):
         r = rng.random()
         if r < 0.32 or (not ops and r < 0.8):
             n = rng.choice([0, 1, 1, 2, 2, 3, 4, 5]) if malformed or rng.random() < 0.1 else rng.choice([1, 1, 2, 2, 3, 4, 5])
-            ops.append({"op": "submit", "cfgs": [_mk_cfg(rng, x + t, backend) for t in range(n)]})
+            ops.append({"op": "submit", "cfgs": [_mk_cfg(rng, x + t, backend, hpo) for t in range(n)]})
             x += n
             inflight += n
         elif r < 0.47:
@@ -467,18 +497,22 @@ def gen_case(rng, backend, maxlen, malformed=False):
             inflight = 0
         else:
             ops.append({"op": "dump", "flush": rng.random() < 0.3})
+            if rng.random() < 0.2:
+                ops[-1]["alias"] = True
         if ops[-1]["op"] == "gather" and backend == "thread":
             ops[-1]["bursts"] = [rng.choice([1, 1, 2, 3]) for _ in range(3)]
     # probe: the evaluator must stay usable after close, and everything is accounted for at the end
     n = rng.choice([1, 2, 3])
-    ops += [{"op": "close"}, {"op": "submit", "cfgs": [_mk_cfg(rng, x + t, backend) for t in range(n)]}]
+    ops += [{"op": "close"}, {"op": "submit", "cfgs": [_mk_cfg(rng, x + t, backend, hpo) for t in range(n)]}]
     ops += [{"op": "gather", "all": False, "k": 1}] if rng.random() < 0.5 else []
     ops += [{"op": "gather", "all": True, "k": 0}, {"op": "dump", "flush": True}, {"op": "close"}]
     for o in ops:
         if o["op"] == "gather" and backend == "thread":
             o.setdefault("bursts", [1])
-    return {"backend": backend, "hpo": rng.random() < 0.5, "workers": rng.choice([1, 2, 2, 3, 5]), "ops": ops,
-            "malformed": malformed}
+    case = {"backend": backend, "hpo": hpo, "workers": rng.choice([1, 2, 2, 3, 5]), "ops": ops, "malformed": malformed}
+    if rng.random() < 0.15:
+        case["preexisting_csv"] = True
+    return case
 
 
 # --------------------------------------------------------------------------- L2 requests
@@ -676,6 +710,14 @@ def check_case(ck, d, case, spy, vt, from_corpus=False):
     complete = len(trace) == len(case["ops"])
     _stats(ck, case, trace)
     ck.case({k: case[k] for k in ("backend", "hpo", "workers", "ops")}, nontrivial=_nontrivial(case, trace))
+    if case.get("preexisting_csv"):
+        ck.count("results.csv-existed-before")
+    for o in case["ops"]:
+        if o["op"] == "submit":
+            for c in o["cfgs"]:
+                ck.count("return-form:" + c.get("form", "plain"))
+        elif o["op"] == "dump" and o.get("alias"):
+            ck.count("dump-via-dump_evals")
     # L3: the verified checker (theorem C01_checker) on the implementation's trace; the Python statement
     # of the property is kept as a cross-check
     ff_py = _first_failure(case, trace)
@@ -710,6 +752,113 @@ def check_case(ck, d, case, spy, vt, from_corpus=False):
     return bad, mm
 
 
+# --------------------------------------------------------------------------- two evaluators, one storage search
+
+
+def shared_storage_case(ck, rng, vt, seed=None):
+    """`gather_other_jobs_done`: two evaluators attached to the same storage search (the decentralised
+    set-up).  Outside the Lean model (single evaluator); the property is stated directly: an evaluator
+    hands back every job it submitted itself exactly once, and additionally reports every job the OTHER
+    evaluator has gathered — as `other` results, at most once each, with the right payload; the counters
+    count the shared search."""
+    import contextlib
+    import io
+
+    from deephyper.evaluator import HPOJob, SerialEvaluator
+    from deephyper.evaluator.storage import MemoryStorage
+    import random
+
+    seed = rng.getrandbits(32) if seed is None else seed
+    rng = random.Random(seed)  # the scenario is a function of this seed (stored in the replay)
+    vt.reset()
+    storage = MemoryStorage()
+    sid = storage.create_new_search()
+    evs = [SerialEvaluator(run_serial, num_workers=rng.choice([1, 2, 3]), storage=storage, search_id=sid) for _ in range(2)]
+    for e in evs:
+        e._job_class = HPOJob  # outputs reach the storage only in the HPO format
+    try:
+        SerialEvaluator(run_serial, storage=storage, search_id="no-such-search")
+        ck.count("shared-storage:unknown-search-accepted")
+    except ValueError:
+        ck.count("shared-storage:unknown-search-rejected")
+    owner, cfgs = {}, {}
+    local = [set(), set()]   # delivered to its own submitter
+    other = [set(), set()]   # reported to the other evaluator
+    script, bad = [], []
+    x = 0
+    steps = [(rng.randint(0, 1), rng.choice(["submit", "submit", "batch", "all"])) for _ in range(rng.randint(3, 10))]
+    steps += [(0, "all"), (1, "all"), (0, "all"), (1, "all")]
+    try:
+        for who, what in steps:
+            ev = evs[who]
+            script.append([who, what])
+            if what == "submit":
+                n = rng.randint(1, 3)
+                cs = [_mk_cfg(rng, x + t, "serial", True) for t in range(n)]
+                before = set(storage.load_all_job_ids(sid))
+                ev.submit([dict(c) for c in cs])
+                new = sorted(set(storage.load_all_job_ids(sid)) - before, key=_jid)
+                if len(new) != n:
+                    bad.append(f"submit of {n} created jobs {new}")
+                for jid, c in zip(new, cs):
+                    owner[_jid(jid)] = who
+                    cfgs[_jid(jid)] = c
+                x += n
+                continue
+            inflight = sum(1 for j, w in owner.items() if w == who and j not in local[who])
+            if what == "batch" and inflight == 0:
+                continue
+            with contextlib.redirect_stdout(io.StringIO()):
+                res = ev.gather("ALL") if what == "all" else ev.gather("BATCH", 1)
+            loc, oth = res if isinstance(res, tuple) else (res, [])
+            for jb in loc:
+                j = _jid(jb.id)
+                if owner.get(j) != who or j in local[who]:
+                    bad.append(f"evaluator {who} hands back job {j} (owner {owner.get(j)}, already delivered: {j in local[who]})")
+                elif jb.args != cfgs[j] or jb.output != _expected(cfgs[j], True) or jb.status.name != "DONE":
+                    bad.append(f"job {j} local payload {jb.args} / {jb.output} / {jb.status.name}")
+                local[who].add(j)
+            for jb in oth:
+                j = _jid(jb.id)
+                if owner.get(j) != 1 - who:
+                    bad.append(f"evaluator {who} reports its own / an unknown job {j} as foreign")
+                elif j in other[who]:
+                    bad.append(f"evaluator {who} is told about foreign job {j} twice")
+                elif j not in local[1 - who]:
+                    bad.append(f"foreign job {j} reported before its evaluator gathered it")
+                elif jb.args != {k: v for k, v in cfgs[j].items()} or jb.output != _expected(cfgs[j], True):
+                    bad.append(f"foreign job {j} payload {jb.args} / {jb.output}")
+                other[who].add(j)
+            total = len(owner)
+            if ev.num_jobs_submitted != total:
+                bad.append(f"evaluator {who}: num_jobs_submitted={ev.num_jobs_submitted}, jobs in the shared search {total}")
+            if ev.num_jobs_gathered != len(local[who]) + len(other[who]):
+                bad.append(f"evaluator {who}: num_jobs_gathered={ev.num_jobs_gathered}, handed back {len(local[who])} + foreign {len(other[who])}")
+            if bad:
+                break
+        if not bad:
+            for who in (0, 1):
+                mine = {j for j, w in owner.items() if w == who}
+                if local[who] != mine:
+                    bad.append(f"evaluator {who} never handed back {sorted(mine - local[who])}")
+                if other[1 - who] != mine:
+                    bad.append(f"evaluator {1 - who} was never told about foreign jobs {sorted(mine - other[1 - who])}")
+    except Exception as e:  # what a user of the API would see
+        bad.append(f"{type(e).__name__}: {e}")
+    finally:
+        for e in evs:
+            try:
+                e.close()
+            except Exception:
+                pass
+    case = {"backend": "serial", "shared_storage": True, "seed": seed, "script": script, "jobs": len(owner)}
+    ck.case(case, nontrivial=len(owner) >= 2)
+    ck.count("shared-storage-scenario")
+    ck.count("shared-storage:foreign-jobs-reported", sum(len(o) for o in other))
+    if bad:
+        ck.fail(f"{PROP}|other-jobs|gather|shared-storage", "two evaluators on one storage search: " + bad[0], case, bad[:5])
+
+
 def _corpus():
     d = common.VERIF / "corpus" / PROP
     out = []
@@ -739,8 +888,8 @@ def run(ck):
     ]
     rng = ck.rng
     spy = WaitSpy()
-    n_serial, n_thread = ck.pick(700, 3000), ck.pick(120, 500)
-    n_proc, n_loky = ck.pick(0, 40), ck.pick(0, 25)
+    n_serial, n_thread = ck.pick(550, 3000), ck.pick(100, 500)
+    n_proc, n_loky = ck.pick(3, 40), ck.pick(2, 25)
     maxlen = ck.pick(12, 40)
     with ck.driver() as d:
         vt = vloop.install()
@@ -755,6 +904,8 @@ def run(ck):
             for t in range(n_serial):
                 case = gen_case(rng, "serial", maxlen, malformed=(t % 6 == 5))
                 check_case(ck, d, case, spy, vt)
+            for t in range(ck.pick(40, 400)):
+                shared_storage_case(ck, rng, vt)
         finally:
             spy.uninstall()
             vloop.uninstall()
@@ -775,6 +926,14 @@ def run(ck):
 
 
 def replay(ck, case):
+    if case.get("shared_storage"):
+        vt = vloop.install()
+        try:
+            shared_storage_case(ck, None, vt, seed=case["seed"])
+        finally:
+            vloop.uninstall()
+        print("replay: oracle failures:", [f["what"] for f in ck.failures] or "none")
+        return
     spy = WaitSpy()
     vt = vloop.install() if case["backend"] == "serial" else None
     spy.install()
